@@ -355,6 +355,36 @@ theorem C_ctor (details : List Detail) (log : List (Nat × Bool)) (n : Nat) (det
       have := lt_of_getElem? _ _ _ hy
       exact ⟨d, y, by rw [List.getElem?_append_left this]; exact hy, hfy, hfd'⟩
 
+/-- `new Detail` holding an invalid (negative) descriptor number -/
+theorem C_ctor_neg (details : List Detail) (log : List (Nat × Bool)) (n : Nat) (det : Detail)
+    (hi : CInv details log n) (hfd : det.fd < 0) :
+    CInv (details ++ [det]) log n := by
+  have back : ∀ (d : Nat) (x : Detail), (details ++ [det])[d]? = some x →
+      (d < details.length ∧ details[d]? = some x) ∨ (d = details.length ∧ x = det) := by
+    intro d x hx
+    rw [List.getElem?_append] at hx
+    split at hx
+    · rename_i hlt; exact Or.inl ⟨hlt, hx⟩
+    · right
+      cases hq : d - details.length with
+      | zero => simp [hq] at hx; exact ⟨by omega, hx.symm⟩
+      | succ k => simp [hq] at hx
+  refine ⟨hi.logNodup, hi.logBound, ?_, ?_, ?_⟩
+  · intro d x hx hfx h0
+    rcases back d x hx with ⟨_, ex⟩ | ⟨_, ex⟩
+    · exact hi.fdOpen d x ex hfx h0
+    · subst ex; omega
+  · intro d1 d2 x1 x2 hx1 hx2 hf1 hf2 h0 he
+    rcases back d1 x1 hx1 with ⟨l1, ex1⟩ | ⟨l1, ex1⟩ <;> rcases back d2 x2 hx2 with ⟨l2, ex2⟩ | ⟨l2, ex2⟩
+    · exact hi.fdUniq d1 d2 x1 x2 ex1 ex2 hf1 hf2 h0 he
+    · subst ex2; omega
+    · subst ex1; omega
+    · omega
+  · intro r hr hnl
+    obtain ⟨d, y, hy, hfy, hfd'⟩ := hi.noLeak r hr hnl
+    have := lt_of_getElem? _ _ _ hy
+    exact ⟨d, y, by rw [List.getElem?_append_left this]; exact hy, hfy, hfd'⟩
+
 /-! ### the member functions -/
 
 namespace FdSys
@@ -422,6 +452,12 @@ theorem ctorFd_inv (s : FdSys) (h : Nat) (fn : Bool) (hi : FInv s) (hh : s.handl
   obtain ⟨hr, hc⟩ := hi
   exact ⟨R_ctor s.details s.handles h _ hr hh rfl rfl, C_ctor s.details s.closeLog s.nextRes _ hc rfl rfl⟩
 
+theorem ctorNeg_inv (s : FdSys) (h k : Nat) (fn : Bool) (hi : FInv s) (hh : s.handles[h]? = some none) :
+    FInv (s.ctorNeg h k fn) := by
+  obtain ⟨hr, hc⟩ := hi
+  exact ⟨R_ctor s.details s.handles h _ hr hh rfl rfl,
+    C_ctor_neg s.details s.closeLog s.nextRes _ hc (by simp only; exact Int.negSucc_lt_zero k)⟩
+
 theorem copyInto_inv (s : FdSys) (d src : Nat) (hi : FInv s) (hh : s.handles[d]? = some none) :
     FInv (s.copyInto d src) := by
   obtain ⟨hr, hc⟩ := hi
@@ -472,6 +508,9 @@ theorem step_inv (s : FdSys) (op : FdOp) (hi : FInv s) (hok : op.ok = true) : FI
   | opn h fn =>
       have := del_inv s h hi (by simpa [FdOp.ok] using hok)
       exact ctorFd_inv _ h fn this.1 this.2
+  | opnNeg h k fn =>
+      have := del_inv s h hi (by simpa [FdOp.ok] using hok)
+      exact ctorNeg_inv _ h k fn this.1 this.2
   | copyCtor d src =>
       simp [FdOp.ok] at hok
       have := del_inv s d hi hok.1
